@@ -219,3 +219,404 @@ pub fn skip_tagged(b: &mut &[u8]) -> Option<()> {
         take(b, n)?;
     }
 }
+
+// ------------------------------------------------------------------------------------------
+// Additions for C10 / C11 / C12 (additive; nothing above changed)
+// ------------------------------------------------------------------------------------------
+
+/// Allocation-free reference varuint encoder for the bulk sweeps, formulated differently from
+/// `enc_varuint` (C10 cross-checks the two): literally "the shortest of 1, 2, 4 or 8 bytes that
+/// holds the value shifted left by two, with the length code in the two low bits".
+/// Returns the little-endian word and the number of bytes to take from it.
+pub fn enc_varuint_arr(v: u64) -> Option<([u8; 8], usize)> {
+    if v >> 62 != 0 {
+        return None;
+    }
+    for code in 0..4u32 {
+        let n = 1usize << code;
+        let bits = 8 * n as u32;
+        let word = (v << 2) | code as u64;
+        if bits == 64 || word >> bits == 0 {
+            return Some((word.to_le_bytes(), n));
+        }
+    }
+    None
+}
+
+/// Allocation-free reference varint encoder (see `enc_varuint_arr`).
+pub fn enc_varint_arr(v: i64) -> Option<([u8; 8], usize)> {
+    let shifted = (v as i128) << 2;
+    // 62-bit range: the shifted value must fit a signed 64-bit word
+    if shifted < -(1i128 << 63) || shifted > (1i128 << 63) - 1 {
+        return None;
+    }
+    for code in 0..4u32 {
+        let n = 1usize << code;
+        let bits = 8 * n as u32;
+        let lo = -(1i128 << (bits - 1));
+        let hi = (1i128 << (bits - 1)) - 1;
+        if shifted >= lo && shifted <= hi {
+            let word = (shifted as i64 as u64) | code as u64;
+            return Some((word.to_le_bytes(), n));
+        }
+    }
+    None
+}
+
+/// Why the reference decoder rejects an input.
+#[derive(Clone, Copy, Debug, PartialEq, Eq, Hash)]
+pub enum Reject {
+    /// fewer bytes than the encoding needs
+    Eob,
+    /// a bool byte other than 0 / 1
+    IllegalBool,
+    InvalidUtf8,
+    /// a variable-width integer that does not fit the requested type
+    OutOfRange,
+    DuplicateKey,
+}
+
+pub type RefResult<T> = Result<T, Reject>;
+
+pub fn need<'a>(b: &mut &'a [u8], n: usize) -> RefResult<&'a [u8]> {
+    take(b, n).ok_or(Reject::Eob)
+}
+
+pub fn rd_varuint(b: &mut &[u8]) -> RefResult<u64> {
+    read_varuint(b).ok_or(Reject::Eob)
+}
+
+pub fn rd_varint(b: &mut &[u8]) -> RefResult<i64> {
+    read_varint(b).ok_or(Reject::Eob)
+}
+
+pub fn rd_varint_as<T: TryFrom<i64>>(b: &mut &[u8]) -> RefResult<T> {
+    T::try_from(rd_varint(b)?).map_err(|_| Reject::OutOfRange)
+}
+
+pub fn rd_varuint_as<T: TryFrom<u64>>(b: &mut &[u8]) -> RefResult<T> {
+    T::try_from(rd_varuint(b)?).map_err(|_| Reject::OutOfRange)
+}
+
+pub fn rd_size(b: &mut &[u8]) -> RefResult<usize> {
+    rd_varuint_as::<usize>(b)
+}
+
+/// `skip_tagged` with the reason of a rejection.
+pub fn rd_skip_tagged(b: &mut &[u8]) -> RefResult<()> {
+    loop {
+        let tag: i32 = rd_varint_as(b)?;
+        if tag == -1 {
+            return Ok(());
+        }
+        let n = rd_size(b)?;
+        need(b, n)?;
+    }
+}
+
+/// Type names without module paths (`Vec<HashMap<u8, String>>`).
+pub fn short_type_name<T: ?Sized>() -> String {
+    let full = std::any::type_name::<T>();
+    let mut out = String::new();
+    let mut ident = String::new();
+    let mut chars = full.chars().peekable();
+    while let Some(c) = chars.next() {
+        if c.is_alphanumeric() || c == '_' {
+            ident.push(c);
+        } else if c == ':' && chars.peek() == Some(&':') {
+            chars.next();
+            ident.clear(); // drop the path segment
+        } else {
+            out.push_str(&ident);
+            ident.clear();
+            if c != ' ' {
+                out.push(c);
+            }
+        }
+    }
+    out.push_str(&ident);
+    out
+}
+
+/// Typed reference codec over the static types of the C10 / C11 menus.  Written from the
+/// statement; never calls slice-codec.
+pub trait RefCodec: Sized {
+    fn ref_encode(&self, out: &mut Vec<u8>);
+    fn ref_decode(b: &mut &[u8]) -> RefResult<Self>;
+    /// Equality as the properties define it: floats by bit pattern, dictionaries as maps.
+    fn same(&self, other: &Self) -> bool;
+    /// Compact, deterministic text (dictionary entries sorted) for evidence and failure details.
+    fn show(&self) -> String;
+    /// Nesting depth of containers (scalars and strings 0).
+    fn depth(&self) -> usize {
+        0
+    }
+    /// "not 0 / empty"
+    fn is_trivial(&self) -> bool;
+}
+
+pub fn ref_bytes<T: RefCodec>(v: &T) -> Vec<u8> {
+    let mut out = Vec::new();
+    v.ref_encode(&mut out);
+    out
+}
+
+impl RefCodec for bool {
+    fn ref_encode(&self, out: &mut Vec<u8>) {
+        out.push(if *self { 1 } else { 0 });
+    }
+    fn ref_decode(b: &mut &[u8]) -> RefResult<Self> {
+        match need(b, 1)?[0] {
+            0 => Ok(false),
+            1 => Ok(true),
+            _ => Err(Reject::IllegalBool),
+        }
+    }
+    fn same(&self, other: &Self) -> bool {
+        self == other
+    }
+    fn show(&self) -> String {
+        format!("{self}")
+    }
+    fn is_trivial(&self) -> bool {
+        !*self
+    }
+}
+
+macro_rules! ref_codec_int {
+    ($($ty:ty),*) => {$(
+        impl RefCodec for $ty {
+            fn ref_encode(&self, out: &mut Vec<u8>) {
+                // little-endian two's complement, byte by byte from the low end
+                let n = std::mem::size_of::<$ty>();
+                let mut x = *self as i128 as u128;
+                for _ in 0..n {
+                    out.push((x & 0xff) as u8);
+                    x >>= 8;
+                }
+            }
+            fn ref_decode(b: &mut &[u8]) -> RefResult<Self> {
+                let n = std::mem::size_of::<$ty>();
+                let raw = need(b, n)?;
+                let mut x: u128 = 0;
+                for (i, byte) in raw.iter().enumerate() {
+                    x |= (*byte as u128) << (8 * i);
+                }
+                Ok(x as $ty)
+            }
+            fn same(&self, other: &Self) -> bool {
+                self == other
+            }
+            fn show(&self) -> String {
+                format!("{}{}", self, stringify!($ty))
+            }
+            fn is_trivial(&self) -> bool {
+                *self == 0
+            }
+        }
+    )*};
+}
+ref_codec_int!(u8, i8, u16, i16, u32, i32, u64, i64);
+
+impl RefCodec for f32 {
+    fn ref_encode(&self, out: &mut Vec<u8>) {
+        self.to_bits().ref_encode(out)
+    }
+    fn ref_decode(b: &mut &[u8]) -> RefResult<Self> {
+        Ok(f32::from_bits(u32::ref_decode(b)?))
+    }
+    fn same(&self, other: &Self) -> bool {
+        self.to_bits() == other.to_bits()
+    }
+    fn show(&self) -> String {
+        format!("f32:{:#010x}", self.to_bits())
+    }
+    fn is_trivial(&self) -> bool {
+        self.to_bits() == 0
+    }
+}
+
+impl RefCodec for f64 {
+    fn ref_encode(&self, out: &mut Vec<u8>) {
+        self.to_bits().ref_encode(out)
+    }
+    fn ref_decode(b: &mut &[u8]) -> RefResult<Self> {
+        Ok(f64::from_bits(u64::ref_decode(b)?))
+    }
+    fn same(&self, other: &Self) -> bool {
+        self.to_bits() == other.to_bits()
+    }
+    fn show(&self) -> String {
+        format!("f64:{:#018x}", self.to_bits())
+    }
+    fn is_trivial(&self) -> bool {
+        self.to_bits() == 0
+    }
+}
+
+fn clip(mut s: String) -> String {
+    if s.len() > 400 {
+        let mut cut = 400;
+        while !s.is_char_boundary(cut) {
+            cut -= 1;
+        }
+        s.truncate(cut);
+        s.push_str("...");
+    }
+    s
+}
+
+impl RefCodec for String {
+    fn ref_encode(&self, out: &mut Vec<u8>) {
+        out.extend_from_slice(&enc_varuint(self.len() as u64).expect("length"));
+        out.extend_from_slice(self.as_bytes());
+    }
+    fn ref_decode(b: &mut &[u8]) -> RefResult<Self> {
+        let n = rd_size(b)?;
+        let raw = need(b, n)?;
+        match std::str::from_utf8(raw) {
+            Ok(s) => Ok(s.to_owned()),
+            Err(_) => Err(Reject::InvalidUtf8),
+        }
+    }
+    fn same(&self, other: &Self) -> bool {
+        self == other
+    }
+    fn show(&self) -> String {
+        // lossy: a decoder under test may hand back a `String` that is not UTF-8
+        clip(format!("{:?}", String::from_utf8_lossy(self.as_bytes())))
+    }
+    fn is_trivial(&self) -> bool {
+        self.is_empty()
+    }
+}
+
+impl<T: RefCodec> RefCodec for Vec<T> {
+    fn ref_encode(&self, out: &mut Vec<u8>) {
+        out.extend_from_slice(&enc_varuint(self.len() as u64).expect("length"));
+        for e in self {
+            e.ref_encode(out);
+        }
+    }
+    fn ref_decode(b: &mut &[u8]) -> RefResult<Self> {
+        // the announced count is never trusted for allocation
+        let n = rd_size(b)?;
+        let mut out = Vec::new();
+        for _ in 0..n {
+            out.push(T::ref_decode(b)?);
+        }
+        Ok(out)
+    }
+    fn same(&self, other: &Self) -> bool {
+        self.len() == other.len() && self.iter().zip(other).all(|(a, b)| a.same(b))
+    }
+    fn show(&self) -> String {
+        let mut s = format!("[{}:", self.len());
+        for (i, e) in self.iter().enumerate() {
+            if s.len() > 400 {
+                s.push_str(" ...");
+                break;
+            }
+            if i > 0 {
+                s.push(',');
+            }
+            s.push(' ');
+            s.push_str(&e.show());
+        }
+        s.push(']');
+        s
+    }
+    fn depth(&self) -> usize {
+        1 + self.iter().map(|e| e.depth()).max().unwrap_or(0)
+    }
+    fn is_trivial(&self) -> bool {
+        self.is_empty()
+    }
+}
+
+fn show_entries(mut entries: Vec<(String, String)>) -> String {
+    entries.sort();
+    let mut s = format!("{{{}:", entries.len());
+    for (i, (k, v)) in entries.iter().enumerate() {
+        if s.len() > 400 {
+            s.push_str(" ...");
+            break;
+        }
+        if i > 0 {
+            s.push(',');
+        }
+        s.push_str(&format!(" {k} => {v}"));
+    }
+    s.push('}');
+    s
+}
+
+fn ref_decode_entries<K: RefCodec + Ord + Clone, V: RefCodec>(b: &mut &[u8]) -> RefResult<Vec<(K, V)>> {
+    let n = rd_size(b)?;
+    let mut seen = std::collections::BTreeSet::new();
+    let mut out = Vec::new();
+    for _ in 0..n {
+        let k = K::ref_decode(b)?;
+        let v = V::ref_decode(b)?;
+        if !seen.insert(k.clone()) {
+            return Err(Reject::DuplicateKey);
+        }
+        out.push((k, v));
+    }
+    Ok(out)
+}
+
+impl<K: RefCodec + Ord + Clone, V: RefCodec> RefCodec for std::collections::BTreeMap<K, V> {
+    /// Ordered dictionary: entries in key order.
+    fn ref_encode(&self, out: &mut Vec<u8>) {
+        out.extend_from_slice(&enc_varuint(self.len() as u64).expect("length"));
+        for (k, v) in self {
+            k.ref_encode(out);
+            v.ref_encode(out);
+        }
+    }
+    fn ref_decode(b: &mut &[u8]) -> RefResult<Self> {
+        Ok(ref_decode_entries::<K, V>(b)?.into_iter().collect())
+    }
+    fn same(&self, other: &Self) -> bool {
+        self.len() == other.len() && self.iter().all(|(k, v)| other.get(k).map(|w| v.same(w)).unwrap_or(false))
+    }
+    fn show(&self) -> String {
+        show_entries(self.iter().map(|(k, v)| (k.show(), v.show())).collect())
+    }
+    fn depth(&self) -> usize {
+        1 + self.iter().map(|(k, v)| k.depth().max(v.depth())).max().unwrap_or(0)
+    }
+    fn is_trivial(&self) -> bool {
+        self.is_empty()
+    }
+}
+
+impl<K: RefCodec + Ord + Clone + std::hash::Hash, V: RefCodec> RefCodec for std::collections::HashMap<K, V> {
+    /// Unordered dictionary: the wire order is the order in which *this instance* iterates (an
+    /// unmodified `HashMap` iterates in the same order every time), so exact bytes can be
+    /// compared; that the bytes denote the same *map* is established separately by decoding.
+    fn ref_encode(&self, out: &mut Vec<u8>) {
+        out.extend_from_slice(&enc_varuint(self.len() as u64).expect("length"));
+        for (k, v) in self.iter() {
+            k.ref_encode(out);
+            v.ref_encode(out);
+        }
+    }
+    fn ref_decode(b: &mut &[u8]) -> RefResult<Self> {
+        Ok(ref_decode_entries::<K, V>(b)?.into_iter().collect())
+    }
+    fn same(&self, other: &Self) -> bool {
+        self.len() == other.len() && self.iter().all(|(k, v)| other.get(k).map(|w| v.same(w)).unwrap_or(false))
+    }
+    fn show(&self) -> String {
+        show_entries(self.iter().map(|(k, v)| (k.show(), v.show())).collect())
+    }
+    fn depth(&self) -> usize {
+        1 + self.iter().map(|(k, v)| k.depth().max(v.depth())).max().unwrap_or(0)
+    }
+    fn is_trivial(&self) -> bool {
+        self.is_empty()
+    }
+}
+
